@@ -10,6 +10,7 @@ BASE_STUBS_EXT = [
 ]
 BASE_STUBS_CANDID = [
     "crate::types::type_env::TypeEnv::trace_type_with_depth",
+    "binread::binary_template::write_start_struct",
     "alloc::fmt::format",
     "crate::Error::msg",
     "stacker::remaining_stack",
@@ -24,7 +25,9 @@ BASE_STUBS_PARSER = [
 class H:
     def __init__(self, prop, name, loc, module, bound, what, quick=True, est_s=60, cap_s=None,
                  mem_gb=20, cbmc_args=None, stubs=None, exact=False):
-        self.prop, self.name, self.loc, self.module = prop, name, loc, module
+        self.props = [prop] if isinstance(prop, str) else list(prop)
+        self.prop = self.props[0]
+        self.name, self.loc, self.module = name, loc, module
         self.bound, self.what, self.quick = bound, what, quick
         self.est_s = est_s
         self.cap_s = cap_s or max(600, est_s * 4)
@@ -93,6 +96,24 @@ add("C09", "c09_de_u128_le4", "candid", "de_c09",
     "symbolic length 0..=4 x wire type over 17 primitive types x symbolic quotas", U128_WHAT, est_s=60)
 add("C09", "c09_de_i128_le4", "candid", "de_c09",
     "symbolic length 0..=4 x wire type over 17 primitive types x symbolic quotas", I128_WHAT, est_s=60)
+
+PRIM_BOUND = ("all value buffers of symbolic length 0..=width+1 x wire type symbolic over the 17 primitive types x "
+              "symbolic decoding/skipping quota x symbolic error verbosity")
+PRIM_WHAT = ("T::deserialize on constructed decoder state: no panic, cursor <= len; Ok(v) => wire == expected, bytes "
+             "well-formed, v == little-endian reference, consumed == width, 1 <= cost <= width+2; no quota and "
+             "well-formed value of the expected type => Ok")
+for t, est in (("bool", 40), ("u8", 40), ("u16", 40), ("u32", 40), ("u64", 60), ("i8", 40), ("i16", 40), ("i32", 40),
+               ("i64", 60), ("f32", 40), ("f64", 60)):
+    add(["C08", "C06", "C07"], f"c08_prim_{t}", "candid", "de_prim", PRIM_BOUND, PRIM_WHAT,
+        quick=t in ("bool", "u16", "i64", "f32"), est_s=est)
+TEXT_WHAT = ("text target: Ok(s) => wire is text, LEB length prefix (minimal or padded) + that many UTF-8 bytes, s equals "
+             "them, consumed exactly, 1 <= cost <= |t|+3; well-formed text without quota => Ok; never reads outside")
+add(["C08", "C06", "C07"], "c08_text_str_le5", "candid", "de_prim",
+    "symbolic length 0..=5 bytes x 17 wire prims x symbolic quotas", TEXT_WHAT + " (&str, borrowed)", est_s=120)
+add(["C08", "C06", "C07"], "c08_text_string_le4", "candid", "de_prim",
+    "symbolic length 0..=4 bytes x 17 wire prims x symbolic quotas", TEXT_WHAT + " (String, owned)", est_s=120)
+add(["C08", "C06", "C07"], "c08_unit", "candid", "de_prim", "0..=2 bytes x 17 wire prims x symbolic quotas",
+    "() target: Ok => wire null, nothing consumed, cost >= 1 (zero-sized values are not free)", est_s=40)
 
 OUTSIDE = {
     "C09": "LEB strings longer than the per-harness byte bound; num-bigint's own arithmetic (boundary stubbed in the "
